@@ -241,6 +241,91 @@ async fn test_single_object() -> Result<()> {
 
 #[tokio::test]
 #[tracing::instrument]
+async fn test_copy_object_replaces_object() -> Result<()> {
+    let _guard = serial().await;
+
+    let c = Client::new(config());
+    let bucket = format!("test-copy-object-{}", Uuid::new_v4());
+    let bucket = bucket.as_str();
+    create_bucket(&c, bucket).await?;
+
+    let (plain, tagged, dst) = ("plain.txt", "tagged.txt", "dst.txt");
+    let crc32c_of = |data: &[u8]| base64_simd::STANDARD.encode_to_string(crc32c::crc32c(data).to_be_bytes());
+
+    // one object without metadata or checksum, one with both
+    c.put_object()
+        .bucket(bucket)
+        .key(plain)
+        .body(ByteStream::from_static(b"plain"))
+        .send()
+        .await?;
+    for key in [tagged, dst] {
+        c.put_object()
+            .bucket(bucket)
+            .key(key)
+            .body(ByteStream::from_static(b"tagged"))
+            .metadata("color", "red")
+            .checksum_crc32_c(crc32c_of(b"tagged"))
+            .send()
+            .await?;
+    }
+
+    // the copy of an object without metadata or checksum has neither
+    {
+        c.copy_object()
+            .copy_source(format!("{bucket}/{plain}"))
+            .bucket(bucket)
+            .key(dst)
+            .send()
+            .await?;
+
+        let ans = c
+            .get_object()
+            .bucket(bucket)
+            .key(dst)
+            .checksum_mode(ChecksumMode::Enabled)
+            .send()
+            .await?;
+        assert!(ans.metadata().is_none_or(|m| m.is_empty()));
+        assert!(ans.checksum_crc32_c().is_none());
+        let body = ans.body.collect().await?.into_bytes();
+        assert_eq!(body.as_ref(), b"plain");
+    }
+
+    // the copy of an object with metadata and a checksum has both
+    {
+        c.copy_object()
+            .copy_source(format!("{bucket}/{tagged}"))
+            .bucket(bucket)
+            .key(dst)
+            .send()
+            .await?;
+
+        let ans = c
+            .get_object()
+            .bucket(bucket)
+            .key(dst)
+            .checksum_mode(ChecksumMode::Enabled)
+            .send()
+            .await?;
+        assert_eq!(ans.metadata().and_then(|m| m.get("color")).map(String::as_str), Some("red"));
+        assert_eq!(ans.checksum_crc32_c(), Some(crc32c_of(b"tagged").as_str()));
+        let body = ans.body.collect().await?.into_bytes();
+        assert_eq!(body.as_ref(), b"tagged");
+    }
+
+    {
+        for key in [plain, tagged, dst] {
+            delete_object(&c, bucket, key).await?;
+        }
+        delete_bucket(&c, bucket).await?;
+    }
+
+    Ok(())
+}
+
+#[tokio::test]
+#[tracing::instrument]
 async fn test_multipart() -> Result<()> {
     let _guard = serial().await;
 
